@@ -24,6 +24,7 @@ def c08(ctx, res):
     cfg = "MC_C08_quick.cfg" if ctx.quick else "MC_C08_thorough.cfg"
     ctx.gen_replay(res, "vfk", "MC_C08.tla", cfg)
     ctx.gen_replay(res, "vfk", "MC_C08.tla", "MC_C08_deep.cfg")   # deeper Maps (7 nodes), no conditions
+    ctx.gen_replay(res, "vfk", "MC_C08.tla", "MC_C08_nil.cfg")    # members present with a null value
     ctx.gen_replay(res, "vfkw", "MC_Wide.tla", "MC_Wide_vfk.cfg")
     # sessions: sub-key STRINGS that are legal under both field separators, every history of SetFieldSeparator calls
     # interleaved with key searches (the condition a string denotes is a function of the separator at the time of the call)
@@ -46,6 +47,7 @@ def c10(ctx, res):
     path_trace(ctx, res)
     cfg = "MC_C10_quick.cfg" if ctx.quick else "MC_C10_thorough.cfg"
     ctx.gen_replay(res, "upd", "MC_C10.tla", cfg)
+    ctx.gen_replay(res, "upd", "MC_C10.tla", "MC_C10_empty.cfg")      # the empty key as a key and as a path segment (a..k, .a, a.)
     # sessions: new-value STRINGS ("k<sep>v") under every history of SetFieldSeparator calls, separators of one and two characters
     ctx.gen_replay(res, "mxj", "Mxj.tla", "Mxj_upd.cfg", procs=4)
     ctx.gen_replay(res, "mxj", "Mxj.tla", "Mxj_updk.cfg", procs=4)     # ... and sub-key strings of UpdateValuesForPath
@@ -90,6 +92,9 @@ def c13(ctx, res):
     ctx.gen_replay(res, "stream", "MC_Stream.tla", "MC_Stream_cut_%s.cfg" % t, workers=8)
     ctx.gen_replay(res, "stream", "MC_Stream.tla", "MC_Stream_jsoncut_quick.cfg", workers=8)
     ctx.gen_replay(res, "file", "MC_Stream.tla", "MC_Stream_files.cfg", workers=4)
+    # ... and the file WRITERS ("the file readers/writers inherit this"): what the four writers put into a file -- also over an
+    # existing longer file -- is read back as exactly the written documents
+    ctx.gen_replay(res, "filert", "MC_C19.tla", "MC_C19_quick.cfg", procs=16)
     # sessions: JsonUseNumber histories; the reader form decodes like NewMapJson
     ctx.gen_replay(res, "mxj", "Mxj.tla", "Mxj_json.cfg", procs=4)
     # the adaptor's no-loss / no-duplication invariant for a stream of ARBITRARY length (Apalache, inductive)
@@ -116,6 +121,7 @@ def c18(ctx, res):
     # XMPP streams: every history of HandleXMPPStreamTag (set / clear / toggle), key folding, white-space and attribute-prefix setters with the four
     # decoder entry points on a <stream:stream> document in between (the element is returned at its start tag only while the register is on)
     ctx.gen_replay(res, "mxj", "Mxj.tla", "Mxj_xmpp_quick.cfg" if ctx.quick else "Mxj_xmpp.cfg", procs=8)
+    ctx.gen_replay(res, "mxj", "Mxj.tla", "Mxj_vfp.cfg", procs=4)     # SetArraySize histories: results of queries are the caller's, whatever the size
     # calls of the legacy wrappers in between: they neither depend on more than the core does nor change a register
     ctx.gen_replay(res, "mxj", "Mxj.tla", "Mxj_legacy.cfg", procs=8)
     res.exhaustive = False
@@ -159,6 +165,7 @@ def c03(ctx, res):
     ctx.gen_replay(res, "encv", "MC_C03.tla", "MC_C03_pfx_quick.cfg" if ctx.quick else "MC_C03_pfx_thorough.cfg", procs=8)
     # ... and with NO attribute prefix (SetAttrPrefix("") / PrependAttrWithHyphen(false)): no key is an attribute
     ctx.gen_replay(res, "encv", "MC_C03.tla", "MC_C03_nopfx_quick.cfg" if ctx.quick else "MC_C03_nopfx_thorough.cfg", procs=8)
+    ctx.gen_replay(res, "encv", "MC_C03.tla", "MC_C03_attr2.cfg", procs=8)    # up to three attribute entries on one element, empty and non-empty values
     # Go-typed values a caller may put into a Map (int, int32, int64, float32, json.Number, []byte, []string, []map[string]interface{}):
     # the bytes are those of the untyped value (MC_C03t!TypeUp)
     ctx.gen_replay(res, "encv", "MC_C03t.tla", "MC_C03t_quick.cfg" if ctx.quick else "MC_C03t_thorough.cfg", procs=8)
@@ -212,6 +219,9 @@ def c14(ctx, res):
 def c16(ctx, res):
     ctx.gen_replay(res, "det", "MC_C16.tla", "MC_C16_quick.cfg" if ctx.quick else "MC_C16_thorough.cfg", procs=16)
     ctx.gen_replay(res, "det", "MC_C16.tla", "MC_C16_deep.cfg", procs=4)      # content ten levels deep
+    # sessions: the DECODER's key-folding / structure registers set, cleared and toggled between encodings of a Map whose keys differ in case only
+    # (encoding is a function of the Map and of the encoder registers; ascending BYTE order of keys)
+    ctx.gen_replay(res, "mxj", "Mxj.tla", "Mxj_enc.cfg", procs=8)
     res.assumptions += ["hash iteration orders are varied through insertion order and map capacity (0, 1, 16, 200) and three repetitions; Go randomises map iteration per range statement anyway",
                         "indented XML compared with the compact form up to inter-element white space; indented JSON through json.Compact"]
 
